@@ -126,7 +126,7 @@ TEXT["C08"] = {
 }
 
 TEXT["C19"] = {
-    "technique": "property-based testing (rapid); differential between template syntax at 19 positions and left-to-right composition of the public ApplyFilter",
+    "technique": "property-based testing (rapid); differential between template syntax at 20 positions and left-to-right composition of the public ApplyFilter",
     "text": "Chains of 0-4 deterministic registered filters with literal, context, dotted-path and enclosing-scope parameters are written at 19 expression positions (output, if/elif, for-in, with, set, include-with, firstof, ifequal, widthratio, macro argument/default, subscript, cycle, ifchanged, operands of + and unary minus, and the filter tag with five body kinds) and compared with the left-to-right fold of ApplyFilter over the same values; a failing fold requires an execution error. Unregistered filter / tag names are planted at every position and must fail compilation (filter tag: at the latest execution, without output). Registering any registered name again must be refused and leave the first implementation in effect; a fresh name is accepted once.",
     "note": "Trusted: the public Value API used for observation. Filters are compared with themselves (ApplyFilter) here; what each filter computes is C17/C18's concern.",
     "design_ref": "DESIGN.md section 3, C19",
